@@ -63,6 +63,15 @@ def observe(given, variant=0):
     u1, u2 = Universe(), Universe(laws=law)
     u1.laws = law
     law.applies_to = None
+    # "cannot be changed afterwards": neither through the mapping that was passed in nor through one that was read out
+    for mapping in (kwargs.get("edge_whitelist"), law.edge_whitelist):
+        if isinstance(mapping, dict) or hasattr(mapping, "__setitem__"):
+            try:
+                for inner in list(mapping.values()):
+                    inner["extra"] = u1
+                mapping["extra"] = {}
+            except Exception:       # noqa: BLE001 - an immutable mapping is fine
+                pass
     reread = [to_id(getattr(law, a), m) for a in ATTRS]
     return {"given": list(given), "read": read, "sets": sets, "reread": reread}
 
